@@ -137,6 +137,11 @@ pub enum Op1 {
   All(P),
   Collect,
   OnErrorMap,
+  /// `on_complete(f)` in the middle of a pipeline (f counted with the finalizers)
+  OnComplete,
+  /// `on_error(f)` in the middle of a pipeline: the error ends in `f`, nothing is
+  /// handed on
+  OnError,
   // ---- stateful user closures: the result depends on how often the closure
   // ---- has been called (0-based call index k)
   /// map(v => v + 10k)
@@ -452,6 +457,8 @@ impl Op1 {
       Op1::All(_) => "all",
       Op1::Collect => "collect",
       Op1::OnErrorMap => "on_error_map",
+      Op1::OnComplete => "on_complete",
+      Op1::OnError => "on_error",
       Op1::MapIdx => "map(stateful)",
       Op1::FilterIdx => "filter(stateful)",
       Op1::TakeWhileIdx(_) => "take_while(stateful)",
@@ -1028,6 +1035,21 @@ macro_rules! build_fns {
             }
             Op1::Collect => s.collect::<Vec<V>>().map(V::from).box_it(),
             Op1::OnErrorMap => s.on_error_map(E::swap).box_it(),
+            Op1::OnComplete => $nc! {{
+              let f = c.finals.clone();
+              s.on_complete(move || {
+                f.fetch_add(1, Ordering::SeqCst);
+              })
+              .box_it()
+            }},
+            Op1::OnError => $nc! {{
+              let f = c.finals.clone();
+              s.on_error(move |_e: E| {
+                f.fetch_add(1, Ordering::SeqCst);
+              })
+              .on_error_map(inf::<E>)
+              .box_it()
+            }},
             Op1::MapIdx => {
               let mut k = 0i64;
               s.map(move |v: V| {
